@@ -81,6 +81,11 @@ pub struct Case {
     /// 1 = for_each, 2 = fold, 3 = count, 4 = collect::<Vec>, 5 = last, 6 = max_by (score)
     #[serde(default)]
     pub finish: u8,
+    /// C03: after the `consumed` next() calls and before max(), call `threshold()` again on the running scanner
+    /// with this value when it is not below the threshold in force (the builder takes `&mut self`; raising the
+    /// threshold leaves "the positions scoring >= threshold" well defined whatever was buffered before)
+    #[serde(default)]
+    pub raise: Option<ThrSpec>,
 }
 
 fn next_up(x: f32) -> f32 {
@@ -200,9 +205,10 @@ fn case_strategy(tier: Tier, near_tie: bool) -> BoxedStrategy<Case> {
             any::<bool>(),
             prop_oneof![3 => Just(Vec::new()), 1 => proptest::collection::vec((prop_oneof![3 => 1usize..=4, 1 => 5usize..=60], block_strategy()), 1..=3)],
             prop_oneof![3 => Just(0u8), 2 => 1u8..=6],
+            prop_oneof![3 => Just(None), 1 => thr_strategy().prop_map(Some)],
         ),
     )
-        .prop_map(|(seq, mat, embed, extra_wrap, block, thr, arm, own_buffer, consumed, (alt_blocks, exact_alloc, reconfig, finish))| Case {
+        .prop_map(|(seq, mat, embed, extra_wrap, block, thr, arm, own_buffer, consumed, (alt_blocks, exact_alloc, reconfig, finish, raise))| Case {
             seq,
             mat,
             embed,
@@ -216,6 +222,7 @@ fn case_strategy(tier: Tier, near_tie: bool) -> BoxedStrategy<Case> {
             exact_alloc,
             reconfig,
             finish,
+            raise,
         })
         .boxed()
 }
@@ -332,6 +339,7 @@ fn long_cases() -> Vec<Case> {
             alt_blocks: vec![Block::Fixed(70000), Block::Default],
             exact_alloc: false,
             reconfig: Vec::new(),
+            raise: None,
             finish: 0,
         });
     }
@@ -546,7 +554,7 @@ pub fn property02() -> Property {
 pub struct Best;
 
 /// Run `k` next() calls then max() under one block size; returns (consumed positions, best).
-fn run_max(case: &Case, s: &Setup, block: &Block, k: usize, reconfigure: bool) -> (Vec<usize>, Option<(usize, f32)>) {
+fn run_max(case: &Case, s: &Setup, block: &Block, k: usize, reconfigure: bool, raise: Option<f32>) -> (Vec<usize>, Option<(usize, f32)>) {
     // a caller-provided score buffer that was used before (taller than anything the scanner needs)
     let mut buffer = StripedScores::<f32, U32>::empty();
     if case.own_buffer {
@@ -583,6 +591,9 @@ fn run_max(case: &Case, s: &Setup, block: &Block, k: usize, reconfigure: bool) -
             }
         }
     }
+    if let Some(t2) = raise {
+        scanner.threshold(t2);
+    }
     let best = scanner.max().map(|h| (h.position(), h.score()));
     (consumed, best)
 }
@@ -593,7 +604,7 @@ impl Sub for Best {
         "best"
     }
     fn rule(&self) -> &'static str {
-        "C02's domain plus near-tie matrices (few distinct cell values +-1e-3) on repeat-rich sequences, k next() calls before max() (0, few, all), the same input under 3 block sizes; oracle: None iff no unconsumed position scores >= t, else the returned position is unconsumed, its score is bit-equal to the reference score of that position and equals the maximum over unconsumed hits; non-trivial = a runner-up within one 8-bit step of the best, or no hit although some position passes the 8-bit pre-filter, or k > 0 with hits left"
+        "C02's domain plus near-tie matrices (few distinct cell values +-1e-3) on repeat-rich sequences, k next() calls before max() (0, few, all), in a quarter of the cases threshold() called again with a higher value on the running scanner between those next() calls and max(), the same input under 3 block sizes; oracle: None iff no unconsumed position scores >= t, else the returned position is unconsumed, its score is bit-equal to the reference score of that position and equals the maximum over unconsumed hits; non-trivial = a runner-up within one 8-bit step of the best, or no hit although some position passes the 8-bit pre-filter, or k > 0 with hits left"
     }
     fn cases(&self, tier: Tier) -> u64 {
         tier.pick(100_000, 3_000_000)
@@ -621,11 +632,20 @@ impl Best {
             return Verdict::Skip(wrap_sig);
         }
         let n = s.r32.len();
-        let t = s.thr.unwrap_or(0.0);
+        let t1 = s.thr.unwrap_or(0.0);
+        // the threshold in force when max() is called: raised (never lowered) after the next() calls
+        let raise = case
+            .raise
+            .as_ref()
+            .and_then(|r| resolve_thr(r, &s.r32, s.pssm.min_score(), s.pssm.max_score()))
+            .filter(|&t2| t2 >= t1);
+        let t = raise.unwrap_or(t1);
         let hits: Vec<usize> = (0..n).filter(|&i| s.r32[i] >= t).collect();
         let mut info = CaseInfo::new();
         classify(case, &s, hits.len(), &mut info);
         info.class_if(case.consumed > 0, "k>0");
+        info.class_if(raise.map_or(false, |t2| t2 > t1), "threshold-raised-before-max");
+        info.class_if(raise.map_or(false, |t2| t2 > t1) && case.consumed > 0 && (0..n).any(|i| s.r32[i] >= t1 && s.r32[i] < t), "threshold-raised-above-earlier-hits");
         // non-triviality
         let dm = s.pssm.to_discrete();
         let step = if hits.is_empty() { 0.0 } else { (dm.unscale(1) - dm.unscale(0)).abs() };
@@ -644,14 +664,15 @@ impl Best {
         blocks.extend(case.alt_blocks.iter().cloned());
         for (bi, block) in blocks.iter().enumerate() {
             let k = if bi == 0 { case.consumed } else { 0 };
-            let (consumed, best) = run_max(case, &s, block, k, bi == 0);
+            let (consumed, best) = run_max(case, &s, block, k, bi == 0, raise);
             // consumed hits must be genuine and distinct (C02's business, but the oracle needs it)
             let remaining: Vec<usize> = hits.iter().cloned().filter(|i| !consumed.contains(i)).collect();
             info.comparisons += 1;
             let sig = |kind: &str| format!("{}:{}", arm_sig(case.arm), kind);
             let ctx = format!(
-                "threshold {:?}, block {:?}, k={}, L={}, M={}, rows={}, wrap={}",
+                "threshold {:?}{}, block {:?}, k={}, L={}, M={}, rows={}, wrap={}",
                 t,
+                if raise.is_some() { format!(" (raised from {:?} after the next() calls)", t1) } else { String::new() },
                 block.resolve(s.rows),
                 consumed.len(),
                 s.idx.len(),
@@ -713,6 +734,7 @@ pub fn property03() -> Property {
             "only the score of the best hit is specified; any position holding the maximum is accepted (no tie rule)",
             "'the exact score' is the f32 left-to-right sum; compared bit-exactly",
             "consumed hits are whatever next() returned before max(); they are excluded from the expected set",
+            "the threshold is the one in force when max() is called; it is only ever raised on a running scanner (lowering it would leave open whether positions of blocks already scanned count)",
             "thresholds are numbers (no NaN); block sizes >= 1",
         ],
     }
